@@ -228,3 +228,6 @@ def packets_per_body(fl: int, n: int, form: bool) -> str:
     post: _ == ''
     """
     return verdict(_count(fl, n, form))
+
+
+from vf.validate.stubs import ALL as VALIDATE  # noqa: E402  (stub-vs-real conformance, run before the obligations)
